@@ -1342,9 +1342,20 @@ static C02_WEIGHTS: &[(u16, u32)] = &[
 fn c02_strategy(tier: Tier) -> BoxedStrategy<Case> {
     let n = if tier == Tier::Quick { 80 } else { 250 };
     union2(
-        lay_case_strategy(LayGen { prop: 2, weights: C02_WEIGHTS, max_ops: n, generic_pct: 25 }),
-        3,
-        map_case_strategy(MapGen { prop: 2, weights: C04_WEIGHTS, max_ops: n, generic_pct: 25, plain_pct: 30 }),
+        union2(
+            lay_case_strategy(LayGen { prop: 2, weights: C02_WEIGHTS, max_ops: n, generic_pct: 25 }),
+            3,
+            map_case_strategy(MapGen { prop: 2, weights: C04_WEIGHTS, max_ops: n, generic_pct: 25, plain_pct: 30 }),
+            1,
+        ),
+        7,
+        // multi-key mutable borrows: two `&mut` to one entry are memory unsafety (the C15 programs, one case in eight)
+        union2(
+            map_case_strategy(MapGen { prop: 2, weights: C15_MAP_WEIGHTS, max_ops: n.min(60), generic_pct: 25, plain_pct: 30 }),
+            2,
+            table_case_strategy(TableGen { prop: 2, weights: C15_TABLE_WEIGHTS, max_ops: n.min(60), generic_pct: 25, plain_pct: 30 }),
+            1,
+        ),
         1,
     )
 }
@@ -1352,6 +1363,8 @@ fn c02_strategy(tier: Tier) -> BoxedStrategy<Case> {
 fn c02_nontrivial(c: &Case, o: &Outcome) -> bool {
     if c.kind == "lay" {
         (c.h("layout") != 7 || o.labels & L_X1 != 0) && o.labels & (L_RESIZE_UP | L_FULL_LOAD) != 0
+    } else if o.labels & L_MANY_MUT != 0 {
+        true
     } else {
         o.labels & (L_DRAIN_CUT | L_INTOITER_CUT | L_EXTRACT_CUT | L_REHASH_IN_PLACE) != 0
     }
@@ -1364,7 +1377,8 @@ pub static C02: PropDef = PropDef {
            insert/remove/lookup/reserve/shrink/clone/retain plus life-cycle operations that create an iterator, drain, \
            extract_if, into_iter, entry, raw entry, rustc entry or occupied-error object, advance it j steps and then \
            DROP or mem::forget it and keep using the collection; one quarter of the cases are HashMap histories with \
-           tracked keys/values from the C04 alphabet. Monitors: guarded allocator (red zones, poison, quarantine, \
+           tracked keys/values from the C04 alphabet, one case in eight is a get_many_mut program of C15 (two `&mut` to \
+           one entry). Monitors: guarded allocator (red zones, poison, quarantine, \
            layout match), every reference checked for alignment / inside the data part of the live block / element \
            self-check, structure validator V1-V4, debug assertions and std unsafe-precondition checks. Non-trivial = \
            (a non-default layout, or a forget / strictly-inside early drop happened) and the table left the singleton state",
@@ -1700,7 +1714,7 @@ fn c20_nontrivial(_c: &Case, o: &Outcome) -> bool {
 pub static C20: PropDef = PropDef {
     id: "C20",
     rule: "maps / sets of tracked elements x entry streams with repeated keys x claimed size hints {none, len, 1, 4095, \
-           4096, 4097, 5000, 8192, 50 000, 100 000, 2^20, 2^32, 2^63, 2^63+1, usize::MAX/2, usize::MAX-1, usize::MAX} x an element deserialisation error at position e (keys and values \
+           4096, 4097, 5000, 8192, 20 000, 50 000, 100 000, 2^32, 2^63, 2^63+1, usize::MAX/2, usize::MAX-1, usize::MAX} x an element deserialisation error at position e (keys and values \
            both count) x mode {serialize -> serde_json -> deserialize, serde value deserializers over a lying iterator, \
            deserialize_in_place into a pre-filled set}; oracle: round trip ==, last value wins, Err is returned, every \
            built element dropped exactly once and no block left, bytes reserved before the first element is read <= block \
